@@ -634,17 +634,32 @@ def c16(ctx):
         fams += [('MC_C02', TypeRender), ('MC_C05', TypeRender), ('MC_C07', TypeRender), ('MC_C08', DefaultRender), ('MC_C09', DerefRender), ('MC_C20', UnionRender)]
     fam_items = []
     st1 = dict(ctx.coverage)
-    for module, cls in fams:
-        fc = rpipe.model_check(ctx, [{'module': module, 'cfg': module + '_quick.cfg', 'workers': 8}], ['DoSeal'])
-        cap = 500 if quick else 5000
+    def family(mc):
+        module, cls = mc
+        cfgname = module + '_corpus.cfg'     # configurations only: the run machine is not explored here
+        if module == 'MC_C10':
+            # the Into resolution is where several candidates compete (marked field, sole field, fields of the target's
+            # type): the three-way interactions of the thorough instance, restricted to variants with at least two
+            # fields of a target's type
+            cfgname = 'MC_C10_corpus3.cfg'
+        sub = SubCtx(ctx, 'fam_' + module)
+        fc = rpipe.model_check(sub, [{'module': module, 'cfg': cfgname, 'workers': 4, 'timeout': 1800}], ['DoSeal'])
+        if module == 'MC_C10':
+            fc = [c for c in fc if any(sum(1 for f in v['fields'] if f['ty'] in ('A', 'B')) >= 2 for v in c['variants'])]
+        cap = (1500 if module == 'MC_C10' else 500) if quick else 5000
         if len(fc) > cap:
             step = len(fc) / float(cap)
             fc = [fc[int(i * step)] for i in range(cap)]
-        for ci, c in enumerate(fc, 1):
-            fam_items.append(('%s.%d' % (module[3:], ci), cls(ci, c, 'C16', name='T').item(derive=False)))
-        st1['states'] += ctx.coverage['states']
-        st1['transitions'] += ctx.coverage['transitions']
-        st1['mc_runs'] = st1['mc_runs'] + ctx.coverage['mc_runs']
+        items = [('%s.%d' % (module[3:], ci), cls(ci, c, 'C16', name='T').item(derive=False)) for ci, c in enumerate(fc, 1)]
+        return items, sub.coverage
+
+    from concurrent.futures import ThreadPoolExecutor as _TPE
+    with _TPE(max_workers=4) as ex:
+        for items_, cov in ex.map(family, fams):
+            fam_items += items_
+            st1['states'] += cov['states']
+            st1['transitions'] += cov['transitions']
+            st1['mc_runs'] = st1['mc_runs'] + cov['mc_runs']
     ctx.coverage.update({k: st1[k] for k in ('states', 'transitions', 'mc_runs')})
     exe = xchan.build(ctx)
     texts = []
@@ -723,7 +738,9 @@ def c16(ctx):
 # ---------------------------------------------------------------- C13 / C17: injected metas
 VALTEXT = {'bool_t': 'true', 'bool_f': 'false', 'ident': 'zz', 'str_ident': '"zz"', 'str_empty': '""', 'int': '3', 'negint': '-3',
            'str_int': '"3"', 'str_negint': '"-3"', 'path2': 'aa::bb', 'str_path2': '"aa::bb"', 'float': '1.5', 'star': '*',
-           'preds': 'T: Copy', 'str_preds': '"T: Copy"', 'call': 'ff(1)', 'char': "'c'"}
+           'preds': 'T: Copy', 'str_preds': '"T: Copy"', 'call': 'ff(1)', 'char': "'c'",
+           'hexint': '0x1F', 'sufint': '3u8', 'bigint': '99999999999999999999999', 'rawstr_ident': 'r"zz"', 'bytestr': 'b"zz"', 'str_ws_ident': '" zz "',
+           'str_2idents': '"a b"', 'str_hexint': '"0x1F"', 'str_plusint': '"+3"', 'paren_int': '(3)', 'rawident': 'r#zz', 'str_rawident': '"r#zz"', 'str_kw': '"type"'}
 TRAIT_ORDER = ["Debug", "Clone", "Copy", "PartialEq", "Eq", "PartialOrd", "Ord", "Hash", "Default", "Deref", "DerefMut", "Into"]
 
 
@@ -897,6 +914,19 @@ def c13(ctx):
             requests.append({'id': rid, 'text': raw_ident_variant(injected_item(r))})
             meta[rid] = {'mode': 'expect', 'expect': 'ok'}
     neg = negative_corpora(ctx, quick)
+    # the same Into target twice, for every way of writing a type (EduceTypes, context "into_dup")
+    st_t = dict(ctx.coverage)
+    tyrecs = model_check_tagged(ctx, [{'module': 'EduceTypes', 'cfg': 'MC_Types_quick.cfg' if quick else 'MC_Types_thorough.cfg', 'workers': 4, 'timeout': 1800}], 'TYEXPR')
+    for k_ in ('states', 'transitions'):
+        ctx.coverage[k_] = ctx.coverage.get(k_, 0) + st_t.get(k_, 0)
+    ctx.coverage['mc_runs'] = st_t.get('mc_runs', []) + ctx.coverage.get('mc_runs', [])
+    for r_ in tyrecs:
+        if r_['ctx'] != 'into_dup' or len(r_['wraps']) > 1:
+            continue
+        ty = r_['ty']
+        neg.append(("#[educe(Into(%s), Into(%s))] struct T<'a, T: Tr>(u8, &'a T);" % (ty, ty), 'the same Into target twice on the type', {'dup_target': ty, 'pos': 'type'}))
+        neg.append(("#[educe(Into(%s), Into(%s, bound = false))] enum T { V1(u8) }" % (ty, ty), 'the same Into target twice on the type', {'dup_target': ty, 'pos': 'type2'}))
+        neg.append(("#[educe(Into(%s))] struct T<'a, T: Tr> { #[educe(Into(%s), Into(%s))] f: u8, g: &'a T }" % (ty, ty, ty), 'the same Into target twice on a field', {'dup_target': ty, 'pos': 'field'}))
     # refused configurations enumerated by the per-trait models (SealBad / NEG lines)
     st = dict(ctx.coverage)
     neg_sources = [('MC_C06', DebugRender, 'nothing to print / rename on a positional field'),
@@ -907,7 +937,7 @@ def c13(ctx):
         neg_sources.append(('MC_C03', TypeRender, 'rank given twice among compared fields'))
     n_model_neg = 0
     for module, cls, why in neg_sources:
-        negs = model_check_tagged(ctx, [{'module': module, 'cfg': module + '_quick.cfg', 'workers': 8}], 'NEG')
+        negs = model_check_tagged(ctx, [{'module': module, 'cfg': module + '_corpus.cfg', 'workers': 8}], 'NEG')
         st['states'] += ctx.coverage['states']
         st['transitions'] += ctx.coverage['transitions']
         st['mc_runs'] = st['mc_runs'] + ctx.coverage['mc_runs']
@@ -1107,6 +1137,8 @@ def type_expression_inputs(ctx, quick):
     g = "<'a, T: Tr>"
     for r in recs:
         ty, c = r['ty'], r['ctx']
+        if c == 'into_dup':
+            continue
         if c == 'into_target':
             out.append('#[educe(Into(%s))] struct S%s { #[educe(Into(%s))] f: u8, g: &\'a T }' % (ty, g, ty))
             out.append('#[educe(Into(%s), Into(u8))] enum S { V1(u8), V2 { f: u8 } }' % ty)
@@ -1848,7 +1880,23 @@ def hostile_item(h, n):
     extra_named = ''
     extra_tuple = ''
     helper = ''
-    if pos == 'typeparam':
+    if pos == 'parampair':
+        a, b = (h['id'], h['id2']) if h['order'] == 'taken_first' else (h['id2'], h['id'])
+        sorts = h['sorts']
+        decl, fn_, ft_ = [], [], []
+        for nm, srt, k_ in ((a, sorts[0], 1), (b, sorts[1], 2)):
+            if srt == 't':
+                decl.append(nm)
+                fn_.append(', xg%d: %s' % (k_, nm))
+                ft_.append(', %s' % nm)
+            else:
+                decl.append('const %s: usize' % nm)
+                fn_.append(', #[educe(Default = mk_arr())] xg%d: [u8; %s]' % (k_, nm))
+                ft_.append(', [u8; %s]' % nm)
+        if 'c' in sorts:
+            helper += 'fn mk_arr<const K: usize>() -> [u8; K] { [0; K] } '
+        gen, extra_named, extra_tuple = '<%s>' % ', '.join(decl), ''.join(fn_), ''.join(ft_)
+    elif pos == 'typeparam':
         gen, extra_named, extra_tuple = '<%s>' % ident, ', xg: %s' % ident, ', %s' % ident
     elif pos == 'constparam':
         gen = '<const %s: usize>' % ident
@@ -1885,9 +1933,9 @@ def hostile_item(h, n):
     allow = []
     camel = bool(_re.match(r'^[A-Z][A-Za-z0-9]*$', ident))
     snake = bool(_re.match(r'^_*[a-z0-9]+(_[a-z0-9]+)*_*$', ident)) or ident.strip('_') == ''
-    if pos in ('variant', 'typename', 'typeparam') and not camel:
+    if pos in ('variant', 'typename', 'typeparam', 'parampair') and not (camel and _re.match(r'^[A-Z][A-Za-z0-9]*$', h.get('id2', 'X'))):
         allow.append('non_camel_case_types')
-    if pos == 'constparam' and not _re.match(r'^[A-Z][A-Z0-9_]*$', ident):
+    if pos == 'parampair' or pos == 'constparam' and not _re.match(r'^[A-Z][A-Z0-9_]*$', ident):
         allow.append('non_upper_case_globals')
     if pos in ('field', 'method', 'lifetime', 'derived') and not snake:
         allow.append('non_snake_case')
@@ -2003,7 +2051,7 @@ def c19_runtime(ctx, templates, candidates):
             continue
         sub = SubCtx(ctx, tag)
         sub.only_cfg = ctx.only_cfg
-        corpus = rpipe.model_check(sub, [{'module': module, 'cfg': module + '_quick.cfg', 'workers': 8}], ['DoSeal'])
+        corpus = rpipe.model_check(sub, [{'module': module, 'cfg': module + '_corpus.cfg', 'workers': 8}], ['DoSeal'])
         # names only matter where two fields share a scope
         if not only:
             corpus = [c for c in corpus if any(len(v['fields']) >= 2 for v in c['variants'])]
@@ -2088,7 +2136,20 @@ def c19(ctx):
     lower = [x for x in pool if x[0].islower() or x[0] == '_']
     facts_path = os.path.join(ctx.workdir, 'facts.json')
     templates, scopes = learn_templates(exe)
-    json.dump({'pool': pool, 'lower': lower, 'templates': templates, 'scopes': scopes}, open(facts_path, 'w'))
+    # fallback names: what the generated code calls its own generics when the user already holds the first choice
+    up = [x for x in pool if _re.match(r'^[A-Za-z][A-Za-z0-9_]*$', x) and x not in SHADOW_NAMES][:200]
+    areqs = [{'id': x, 'text': '#[educe(Debug, Clone, PartialEq, Eq, PartialOrd, Ord, Hash, Default)] struct Tx<%s> { xa: u8, xg: %s }' % (x, x)} for x in up]
+    avoid = []
+    atext = {q['id']: q['text'] for q in areqs}
+    for r in xchan.expand(exe, areqs):
+        if r['outcome'] != 'ok':
+            continue
+        new = set(identre.findall(r['out'])) - set(identre.findall(atext[r['id']])) - set(pool)
+        for a in sorted(new):
+            if a not in RUST_KEYWORDS and a != '_' and not a.startswith('probes'):
+                avoid.append([r['id'], a])
+    json.dump({'pool': pool, 'lower': lower, 'templates': templates, 'scopes': scopes, 'avoid': avoid}, open(facts_path, 'w'))
+    ctx.info('fallback names recorded: %s' % ', '.join('%s->%s' % (a, b) for a, b in avoid))
     ctx.info('name templates recorded: %s' % ', '.join(t['pre'] + '<field>' + t['suf'] for t in templates))
     ctx.info('identifier pool recorded from %d expansions: %d identifiers' % (len(reqs), len(pool)))
     st = dict(ctx.coverage)
@@ -2178,6 +2239,8 @@ def c19(ctx):
         variant, i, p_ = recs[ln - 1]
         h = rendered[i][0]
         key = {'kind': 'hostile-name', 'pos': h['pos'], 'id': h['id']}
+        if h['pos'] == 'parampair':
+            key.update({'id2': h['id2'], 'order': h['order'], 'sorts': h['sorts']})
         kk = json.dumps(key, sort_keys=True)
         if kk in done:
             continue
